@@ -104,11 +104,10 @@ def streamInflow0 (cfg : Cfg) : Int :=
 /-- loop body of `for _, p := range t.PriorityFrames` on `cc.nextStreamID`, unchanged code -/
 def prioSeedLegacy (_nextStreamID streamID : Int) : Int := wrapU32 (streamID + 2)
 
-/-- the same with `fixes/C06-3`: skip past the named stream, stay odd, never go down -/
-def prioSeedFixed (nextStreamID streamID : Int) : Int :=
+/-- the same with `fixes/C06-3`: skip past the named stream as before, but stay odd -/
+def prioSeedFixed (_nextStreamID streamID : Int) : Int :=
   let next := wrapU32 (streamID + 2)
-  let next := if next % 2 = 0 then wrapU32 (next + 1) else next
-  if next > nextStreamID then next else nextStreamID
+  if next % 2 = 0 then wrapU32 (next + 1) else next
 
 def prioSeed (fx : Fixes) : Int → Int → Int :=
   if fx.prioIds then prioSeedFixed else prioSeedLegacy
@@ -234,7 +233,9 @@ def newConn (cfg : Cfg) : State × List Frame :=
      nextStreamID := nextStreamID0 cfg,
      seenSettings := false, wantSettingsAck := true, pendingOpen := none, streams := [] },
    [Frame.settings (initialSettings cfg),
-    Frame.windowUpdate 0 (connFlowAdvertised cfg.connFlow)] ++ cfg.prio.map Frame.priority)
+    Frame.windowUpdate 0 (connFlowAdvertised cfg.connFlow)] ++
+    -- `WritePriority` refuses stream 0 and ids above 2^31-1 (nothing is written)
+    (cfg.prio.filter fun id => id ≠ 0 ∧ id < 2147483648).map Frame.priority)
 
 /-! ## Helpers -/
 
@@ -537,13 +538,25 @@ def apply (st : State) : Op → State × List Frame
   | .close id => close st id
   | .peer f => peer st f
 
+/-- does the operation end with a `cc.cond.Broadcast()` (which is what lets a `RoundTrip`
+blocked in `awaitOpenSlotForStreamLocked` look again)? A stream was forgotten or aborted, a
+WINDOW_UPDATE was applied, or SETTINGS_INITIAL_WINDOW_SIZE was processed. (A SETTINGS frame
+that only raises MAX_CONCURRENT_STREAMS does not wake the waiter.) -/
+def wakes (st st1 : State) : Op → Bool
+  | .peer (.windowUpdate id _) =>
+    id == 0 || (match findStream st.streams id with | some s => s.live | none => false)
+  | .peer (.settings vals) => vals.any (·.1 == sInitialWindowSize)
+  | _ => decide (liveCount st1.streams < liveCount st.streams)
+
 /-- one operation; a closed connection does nothing any more. -/
 def step (st : State) (op : Op) : State × List Frame :=
   if st.closed then (st, [])
   else
     let (st1, fs1) := apply st op
-    let (st2, fs2) := resumePending st1
-    (st2, fs1 ++ fs2)
+    if wakes st st1 op || decide (liveCount st1.streams < liveCount st.streams) then
+      let (st2, fs2) := resumePending st1
+      (st2, fs1 ++ fs2)
+    else (st1, fs1)
 
 /-- what the strict peer sees: its own frames and the client's, in order. -/
 inductive Event where
